@@ -29,7 +29,7 @@ LEVEL_TEXT = ('Reference-model monitor over an exhaustive enumeration of small s
 LEVEL_NOTE = 'Trusted: ref_reindex (20 lines) and NumPy casting used to express "fill cast to the dtype". Exhaustive only up to span length 4 over 6 labels.'
 TECHNIQUE = 'unique-id cells + loop-level reference reindex + snapshots / identity sweep (runtime monitor)'
 EXHAUSTIVE = {'quick': False, 'thorough': True}
-DEFAULTS = {'f': np.nan, 'i': 0, 'b': False, 'U': ''}
+DEFAULTS = {'f': np.nan, 'i': 0, 'u': 0, 'b': False, 'U': ''}
 
 
 def nshards(tier):
@@ -86,7 +86,7 @@ def ref_reindex(old_labels, new_labels, series, fills):
             else:
                 if kind == 'b':
                     res[i] = bool(fill)
-                elif kind == 'i':
+                elif kind in 'iu':
                     res[i] = int(fill)
                 elif kind == 'U':
                     res[i] = str(fill)
@@ -107,7 +107,10 @@ def same(a, b):
 
 def populate(obj, n, is_model):
     ids = {'X': np.arange(n, dtype=float) + 1000.5, 'K': np.arange(n, dtype=np.int64) + 10, 'B': np.array([i % 2 == 0 for i in range(n)], dtype=bool),
-           'S': np.array([f's{i}' for i in range(n)], dtype='<U2')}
+           'S': np.array([f's{i}' for i in range(n)], dtype='<U2'),
+           # non-default widths: every integer / floating dtype has the integer / floating default fill
+           'I': np.arange(n, dtype=np.int32) + 20, 'U': np.arange(n, dtype=np.uint8) + 200, 'H': np.arange(n, dtype=np.float32) + 0.25,
+           'J': np.arange(n, dtype=np.int16) - 3}
     for name, arr in ids.items():
         if name in obj.__dict__['index']:
             obj.__dict__['_' + name][:] = arr
